@@ -201,6 +201,8 @@ def undirected_items(tier):
     inputs += [es for es in three if not mixing(es)][:: (60 if tier == "quick" else 10)]
     # sizes differing by two or more (the capacity test of the reshuffle must use each hyperedge's own size)
     inputs += [((1, 2, 3, 4), (4, 5)), ((1, 2, 3, 4), (1, 5)), ((1, 2, 3, 4, 5), (1, 2)), ((1, 2, 3, 4), (2, 5), (3, 5))]
+    # singleton hyperedges next to a mixing pair: size=1 / order=0 must restrict the reshuffle to them (0 is a valid order)
+    inputs += [((1,), (2,), (1, 2), (3, 4)), ((3,), (1, 2), (3, 4)), ((1,), (5,), (1, 2, 3), (2, 4, 5))]
     for es in inputs:
         sizes = sorted({len(e) for e in es})
         for n_steps in ((0, 1, 2) if tier == "quick" else (0, 1, 2, 3)):
